@@ -1490,6 +1490,11 @@ class Interp:
             return ListObj(list(a.segs) + list(b.segs))
         if isinstance(op, ast.Add) and isinstance(a, SColl) and isinstance(b, SColl):
             return SColl("(%s ++ %s)" % (a.lean(), b.lean()))
+        if isinstance(op, ast.Add) and isinstance(a, ListObj) and isinstance(b, SColl) and \
+                all(k == "elem" and isinstance(x, (str, SStr)) for k, x in a.segs):
+            if not a.segs:
+                return SColl(b.lean())
+            return SColl("([%s] ++ %s)" % (", ".join(str_lean(x) for _, x in a.segs), b.lean()))
         if isinstance(op, ast.Add):
             if isinstance(a, (str, SStr)) or isinstance(b, (str, SStr)):
                 if isinstance(a, SOpt) or isinstance(b, SOpt):
@@ -3321,4 +3326,46 @@ def translate_es(V, T):
                 defs.append((name, params, "String", build_tree(paths, 0, 1), None, len(paths)))
             except Untranslatable as e:
                 defs.append((name, None, "String", None, str(e), 0))
+    # ---- visit_search_field: the context handed down to the expression of a field (analysed marker, field prefix)
+    class _Captured(Exception):
+        def __init__(self, ctx):
+            self.ctx = ctx
+
+    def field_run(prefix):
+        def run(oracle):
+            it = Interp(oracle)
+            me = builder(it, B.SHOULD)
+
+            def rec_visit_iter(interp, obj, a, k):
+                raise _Captured(a[1] if len(a) > 1 else k.get("context"))
+            me.attrs["visit_iter"] = ("rechook", "visit_iter", me)
+            it.rec_hooks["visit_iter"] = rec_visit_iter
+            node, params = class_inputs(T, "SearchField")
+            node.attrs["_luqum_name"] = SOpt("nodeName", "str")
+            ctx = {"name": SOpt("ctxName", "str"), "other": SStr.var("other")}
+            if prefix:
+                ctx[B.CONTEXT_FIELD_PREFIX] = SColl("pfx")
+            try:
+                it.call(it.getattr_(me, "visit_search_field", None), [node, ctx], {}, None)
+            except _Captured as c:
+                cc = c.ctx
+                if not isinstance(cc, dict) or cc is ctx:
+                    raise Untranslatable("visit_search_field hands its own context down")
+                mk, pf = cc.get(B.CONTEXT_ANALYZE_MARKER), cc.get(B.CONTEXT_FIELD_PREFIX)
+                if not isinstance(mk, (bool, SBool)) or not isinstance(pf, SColl):
+                    raise Untranslatable("visit_search_field hands down marker %r, prefix %r" % (mk, pf))
+                kept = isinstance(cc.get("other"), SStr) and cc["other"].lean() == "other"
+                return "Except.ok (%s, %s, %s)" % (bool_lean(mk), pf.lean(), "true" if kept else "false")
+            except PyRaise as e:
+                return emit_raise(e)
+            raise Untranslatable("visit_search_field does not visit the expression of the field")
+        return run
+    for prefix in (False, True):
+        name = "visit_search_field_context_%s" % ("prefix" if prefix else "noprefix")
+        params = ["(na : List Str)", "(name other : Str)", "(nodeName ctxName : Option Str)"] + (["(pfx : List Str)"] if prefix else [])
+        try:
+            paths = explore(field_run(prefix))
+            defs.append((name, params, "FieldCtx", build_tree(paths, 0, 1), None, len(paths)))
+        except Untranslatable as e:
+            defs.append((name, None, "FieldCtx", None, str(e), 0))
     return tables, defs
